@@ -413,7 +413,8 @@ def main(argv=None):
                        backends, solver_time, max_time, kf_reported, wall, api, crashes, bounded_names, kf_names)
     print("%s: %d obligations, %d discharged%s, %d refuted, %d undecided, %d negative controls refuted "
           "(%d VCs, %.1fs wall, solver %.1fs)"
-          % (prop, len(obligs) - len(bounded_names) - (len(violations) - len(real_violations)), n_valid,
+          % (prop, len(obligs) - len(set(bounded_names) | set(n for n, o in violations if n not in real_violations)),
+             n_valid,
              (" (+%d bounded stand-in obligations, not counted)" % len(bounded_names)) if bounded_names else "",
              len(real_violations), len(undecided),
              sum(1 for o in controls.values() if o["status"] == "refuted"),
@@ -478,14 +479,14 @@ def write_evidence(prop, tier, seed, results, obligs, controls, n_valid, violati
                         "time_s": round(o["time"], 3), "backends": o["backends"]})
     bounded = [{"contract": c.label, "bound": c.bounded} for c in api.REGISTRY
                if (c.prop == prop or prop in c.also) and c.bounded]
-    n_unbounded = len(obligs) - len(bounded_names) - len(kf_names)
+    n_unbounded = len(obligs) - len(set(bounded_names) | set(kf_names))
     ev = {
         "property_id": prop,
         "tier": tier,
         "seed": seed,
         "level": "proof" if n_unbounded > 0 else "other",
         "coverage": {
-            "obligations": len(obligs) - len(bounded_names) - len(kf_names),
+            "obligations": n_unbounded,
             "known_finding_obligations": list(kf_names),
             "discharged": n_valid,
             "bounded_standin_obligations": {n: {"bound": b, "status": obligs[n]["status"]}
